@@ -1,4 +1,4 @@
 From Coq Require Import Extraction ExtrOcamlBasic.
 From PV Require Import Lib.ExtBase C18.Model.
 Extraction "model.ml" ext_base_z ext_base_n ext_base_nat ext_base_res ext_base_list
-  layout check_file check_stage check_rows check_xref_stream xref_stream_content w2_width mk_xrow entry_line int64ToBuf be_value dec value free_object undelete_object ensure_valid_free_list pathb chain_ok mk_input.
+  layout check_file check_stage check_rows check_xref_stream xref_stream_content w2_width mk_xrow entry_line int64ToBuf be_value dec value free_object undelete_object ensure_valid_free_list pathb obj_header chain_ok mk_input.
